@@ -457,7 +457,28 @@ def plan_C20(run):
                     "(live objects vs rebuilt from stored (mu, sigma) by create_rating / rating / deepcopy before every game)"}
 
 
+STAGE_CLASSES = ["stage:sort", "stage:unsort", "stage:rankings", "stage:agg", "stage:ladder", "stage:c", "stage:sum_q", "stage:a", "stage:gamma"]
+
+
+def plan_stages(run):
+    """Not a listed property: the intermediate values of rate (observed on the library's own helpers) against the
+    operators of the specification that model those steps (Stages.tla)."""
+    def on(fn):
+        def gen(s, r):
+            s.stages_on = True
+            fn(s, r)
+        return gen
+    n = q(run, 1500, 30000)
+    campaign(run, "rate-campaign", {"S"}, on(lambda s, r: drivers.rate_campaign(s, r, n)))
+    campaign(run, "order-groups", {"S"}, on(lambda s, r: drivers.order_groups(s, r, q(run, 150, 2000))))
+    campaign(run, "extremes", {"S"}, on(lambda s, r: drivers.extremes_campaign(s, r, q(run, 300, 5000), ops=("rate",))))
+    run.require_classes(STAGE_CLASSES, "rate-campaign")
+    return {"rule": "the helpers' observed arguments and results during rate() against Outcome!SortPerm / RunIdx / Pos / Ladder and "
+                    "Update!Agg / PLc / PLSumQ / PairC / TieSize"}
+
+
 PLANS = {
+    "stages": plan_stages,
     "C01": plan_C01,
     "C02": plan_C02,
     "C05": plan_C05,
